@@ -22,6 +22,9 @@
 (***************************************************************************)
 EXTENDS QuantityAlg
 
+CONSTANT FixedDevs      \* named deviations repaired in the tree: error_sign (bbd8748), error_not_scaled (3decc72)
+Sgn(x) == IF "error_sign" \in FixedDevs THEN RAbs(x) ELSE x
+
 None == <<>>
 IsNone(e) == e = None
 E0(e) == IF IsNone(e) THEN RZero ELSE e          \* an exact operand contributes no uncertainty
@@ -89,20 +92,22 @@ MErr(op, a, b, p) ==
          IF IsNone(a.e) /\ IsNone(b.e) THEN None ELSE RAdd(E0(a.e), E0(b.e))
     [] op = "mul" ->
          IF IsNone(a.e) /\ IsNone(b.e) THEN None
-         ELSE IF IsNone(a.e) THEN RMul(b.e, a.v)                       \* right.error * left.value  (signed)
-         ELSE IF IsNone(b.e) THEN RMul(a.e, b.v)                       \* left.error * right.value  (signed)
+         ELSE IF IsNone(a.e) THEN RMul(b.e, Sgn(a.v))                  \* right.error * left.value  (signed before bbd8748)
+         ELSE IF IsNone(b.e) THEN RMul(a.e, Sgn(b.v))                  \* left.error * right.value
          ELSE LET v == RMul(a.v, b.v) IN
               RMax(AbsDiff(RMul(RAdd(a.v, a.e), RAdd(b.v, b.e)), v), AbsDiff(RMul(RSub(a.v, a.e), RSub(b.v, b.e)), v))
     [] op = "div" ->
          IF IsNone(a.e) /\ IsNone(b.e) THEN None
          ELSE LET v == RDiv(a.v, b.v) IN
               IF IsNone(a.e) THEN RMax(AbsDiff(RDiv(a.v, RAdd(b.v, b.e)), v), AbsDiff(RDiv(a.v, RSub(b.v, b.e)), v))
-              ELSE IF IsNone(b.e) THEN RDiv(a.e, b.v)                  \* left.error / right.value  (signed)
+              ELSE IF IsNone(b.e) THEN RDiv(a.e, Sgn(b.v))             \* left.error / right.value
               ELSE RMax(AbsDiff(RDiv(RAdd(a.v, a.e), RSub(b.v, b.e)), v), AbsDiff(RDiv(RSub(a.v, a.e), RAdd(b.v, b.e)), v))
     [] op = "neg" -> a.e
-    [] op = "pow" -> IF IsNone(a.e) THEN None ELSE RMul(a.e, p)        \* value*(100 e/value * p)/100  (signed)
-MConvErr(m, fq) == m.e                                                 \* UnitType.convert: Magnitude(..., magnitude1.error)
-MQSumErr(a, b, gq) == IF IsNone(a.e) /\ IsNone(b.e) THEN None ELSE RAdd(E0(a.e), E0(b.e))
+    [] op = "pow" -> IF IsNone(a.e) THEN None ELSE Sgn(RMul(a.e, p))   \* value*(100 e/value * p)/100
+Scaled == "error_not_scaled" \in FixedDevs
+MConvErr(m, fq) == IF Scaled /\ ~IsNone(m.e) THEN RMul(m.e, fq) ELSE m.e      \* UnitType.convert (error passed through before 3decc72)
+MQSumErr(a, b, gq) == IF IsNone(a.e) /\ IsNone(b.e) THEN None
+                      ELSE RAdd(E0(a.e), IF Scaled THEN RMul(E0(b.e), gq) ELSE E0(b.e))
 
 \* does a predicted error satisfy an obligation list (abse obligations only; the exact model)
 SatOb(o, e) ==
